@@ -11,13 +11,7 @@ package main
 import (
 	"encoding/json"
 	"fmt"
-	"io"
-	"log"
-	"log/slog"
-	"runtime"
 	"sort"
-	"strconv"
-	"strings"
 	"sync"
 	"time"
 
@@ -31,18 +25,6 @@ type memberJSON struct {
 	ID    int   `json:"id"`
 	Host  int   `json:"host"`
 	Kinds []int `json:"kinds"`
-}
-
-func idName(i int) string   { return "n" + strconv.Itoa(i) }
-func hostName(h int) string { return "h" + strconv.Itoa(h) + ":1" }
-func kindName(k int) string { return "k" + strconv.Itoa(k) }
-
-func idNum(s string) int {
-	n, err := strconv.Atoi(strings.TrimPrefix(s, "n"))
-	if err != nil {
-		return -1
-	}
-	return n
 }
 
 func toMember(m memberJSON) *cluster.Member {
@@ -63,49 +45,6 @@ func memberIDs(ms []*cluster.Member) []int {
 }
 
 // memRemote is an actor.Remoter that records what would go over the wire.
-type sentMsg struct {
-	to  *actor.PID
-	msg any
-}
-
-type memRemote struct {
-	addr string
-	mu   sync.Mutex
-	sent []sentMsg
-}
-
-func (r *memRemote) Address() string { return r.addr }
-func (r *memRemote) Send(pid *actor.PID, msg any, _ *actor.PID) {
-	r.mu.Lock()
-	r.sent = append(r.sent, sentMsg{pid, msg})
-	r.mu.Unlock()
-}
-func (r *memRemote) Start(*actor.Engine) error { return nil }
-func (r *memRemote) Stop() *sync.WaitGroup     { return &sync.WaitGroup{} }
-func (r *memRemote) take() []sentMsg {
-	r.mu.Lock()
-	defer r.mu.Unlock()
-	s := r.sent
-	r.sent = nil
-	return s
-}
-
-type noopReceiver struct{}
-
-func (noopReceiver) Receive(*actor.Context) {}
-
-func noopProvider(*cluster.Cluster) actor.Producer {
-	return func() actor.Receiver { return noopReceiver{} }
-}
-
-func quiet() {
-	// many harness processes run side by side: a few threads each are enough
-	runtime.GOMAXPROCS(2)
-	slog.SetDefault(slog.New(slog.NewTextHandler(io.Discard, nil)))
-	log.SetOutput(io.Discard)
-}
-
-const waitLong = 10 * time.Second
 
 // --------------------------------------------------------------- agent18
 
@@ -122,8 +61,6 @@ type agentObs struct {
 	Kinds  []bool `json:"kinds"`
 	Err    string `json:"err,omitempty"`
 }
-
-type flushEvent struct{ n int }
 
 const kindUniverse = 3
 
